@@ -1,7 +1,7 @@
 """Blocking / waking rules: P6a-d P7a-e P8 (DESIGN.md section 4)."""
 import re
 from core import CheckError, short, short_fn
-from engine import has_release, has_acquire, norm_rel
+from engine import has_release, has_acquire, norm_rel, is_const
 from rules_send import FLAVOURS, WRITE_OPS, CAS_OPS, index_sources
 from rules_recv import recv_roots
 
@@ -53,6 +53,7 @@ def _p6_root(ctx, r, fl, shared):
 
 
 def _run(ctx):
+    ctx.step(_p7k, ctx)
     shared, view = recv_roots(ctx)
     for fl in FLAVOURS:
         for r in shared:
@@ -341,6 +342,13 @@ def _p7(ctx):
             _z, nz_, _h = x.zero_tests(lambda e_: e_[0] == 'call' and x.rep(e_[1]) == n_)
             any_true |= set(nz_)
     at_l = set(at_l) | any_true
+    # converse of P7d: once the task is registered the answer is "parked" - a `false` after the registration makes poll try
+    # again at once: it registers the task over and over and never returns NotReady while the queue stays empty
+    if falses and g.insts[g.root_inst].body['locals'][0]['ty'].get('k') == 'bool':
+        late = [t for t in falses if any(x.reaches(p_, m_) for p_ in pushes for m_ in g.members(t) if m_ in g.live())]
+        ctx.add('P7d', 'T-MUST', fw, not late, 'after registering the task fut_wait always answers "parked"' if not late else
+                'fut_wait can answer "not parked, retry" after it has registered the task: poll loops inside the call (registering the task again each time) instead of returning NotReady',
+                where=g.where(late[0]) if late else None, sub='parked-after-push')
     if not falses or (g.insts[g.root_inst].body['locals'][0]['ty'].get('k') != 'bool'):
         ctx.add('P7j', 'T-DOM', fw, True, 'fut_wait\'s result is not a boolean with constant origins: nothing to decide here', sub='retry.delegated')
     else:
@@ -373,10 +381,47 @@ def _p7(ctx):
                 '%s: drain under the list lock=%s, every drained task is notified (full range, no truncating adaptor)=%s, notifies tasks=%s' % (short_fn(fn), okl, full, bool(notifies)), sub=short_fn(fn))
         skip = x.reachable_entry(blocked=set(drains)) & set(g.exits)
         if skip:
-            # allowed only behind an emptiness test of the list
-            lens = x.ext_calls(r'VecDeque(::<.*>)?::(len|is_empty)$')
-            okE = bool(lens) and x.dom_any(lens, skip) if hasattr(x, 'dom_any') else bool(lens)
-            ctx.add('P7c', 'T-GUARD', fn, okE, 'the drain is skipped only when the list is empty' if okE else 'notify can return without draining a non-empty list', sub=short_fn(fn) + '|skip')
+            # allowed only behind an emptiness test of the list: the edges on which the list is known to be empty
+            def _len(e_):
+                return e_[0] == 'call' and bool(re.search(r'VecDeque(::<.*>)?::len$', g.call_name(e_[1]) or ''))
+            empty = set()
+            for t_ in x.tests(('Eq',)):
+                if (_len(t_.a) and is_const(t_.b, 0)) or (_len(t_.b) and is_const(t_.a, 0)):
+                    empty.update(t_.true)
+            for t_ in x.tests(('Lt',)):
+                if is_const(t_.a, 0) and _len(t_.b):       # 0 < len
+                    empty.update(t_.false)
+            for t_ in x.tests(('Le',)):
+                if is_const(t_.a, 1) and _len(t_.b):       # 1 <= len
+                    empty.update(t_.false)
+                if _len(t_.a) and is_const(t_.b, 0):       # len <= 0
+                    empty.update(t_.true)
+            for sid in x.switches():
+                e = g.strip(g.switch_expr(sid))
+                if e[0] == 'call' and re.search(r'VecDeque(::<.*>)?::is_empty$', g.call_name(e[1]) or ''):
+                    empty.update(x.switch_edges(sid, 'nonzero'))
+            okE = bool(empty) and not (x.reachable_entry(blocked=set(drains) | empty) & set(g.exits))
+            ctx.add('P7c', 'T-GUARD', fn, okE, 'the drain is skipped only when the list is empty' if okE else
+                    '%s can return without draining a non-empty list: the tasks parked in it are never woken' % short_fn(fn), sub=short_fn(fn) + '|skip')
+        # every task taken out of a list is notified: in a loop over a drain (of the list itself or of the buffer the tasks were
+        # moved to) each element that `next()` hands out reaches Task::notify before the next one is fetched
+        alld = set(x.ext_calls(r'::drain$|IntoIterator::into_iter$'))
+        nloops = 0
+        for N in x.ext_calls(r'Iterator::next$'):
+            if not (alld & x.calls_in(g.call_args(N)[0])):
+                continue
+            some = set()
+            for sid in x.switches():
+                e = g.strip(g.switch_expr(sid))
+                if e[0] == 'discr' and g.strip(e[1])[0] == 'call' and x.rep(g.strip(e[1])[1]) == x.rep(N):
+                    some.update(x.switch_edges(sid, '1'))
+            nloops += 1
+            okn = bool(some) and bool(notifies) and all(x.must(e_, set(notifies), exits=set(g.exits) | set(x.same_site(N))) for e_ in some)
+            ctx.add('P7c', 'T-MUST', fn, okn, 'every task handed out by the drain loop is notified' if okn else
+                    '%s takes parked tasks out of the list without notifying each of them (a drained task that is not notified is lost: its future is never polled again)' % short_fn(fn),
+                    where=g.where(N), sub=short_fn(fn) + '|each.bb%d' % g.nodes[N].bb)
+        ctx.add('P7c', 'T-MUST', fn, nloops > 0, 'the drained tasks are walked in a loop' if nloops else
+                '%s has no loop over the drained tasks' % short_fn(fn), sub=short_fn(fn) + '|loops')
     # send_or_park: last attempt and registration in one lock region (evaluated where the closure is known)
     ss = ctx.fn1(r'^<&multiqueue::FutInnerSend<.*> as .*futures::Sink>::start_send$')
     for fl in FLAVOURS:
@@ -505,3 +550,84 @@ def _p8(ctx):
     rt = set(x.inlined(r'MemoryManager::remove_token$'))
     ok4 = bool(rt) and not (x.reachable_entry(blocked=rt) & set(g.exits))
     ctx.add('P9e', 'T-PAIR', fn, ok4, 'sender drop removes its reclamation token' if ok4 else 'Drop for InnerSend does not remove its token on every path', sub='send-token')
+
+
+def _lock_class(g, x, arg):
+    """which lock an acquisition takes: the consumer task list, the producer task list, or another mutex of the crate"""
+    ps = g.locpaths(arg)
+    if any(p_.endswith('FutWait.parked') or '/FutWait.parked' in p_ for p_ in ps):
+        if any('.prod_wait' in p_ for p_ in ps):
+            return 'producer task list'
+        if any('.wait/' in p_ or '.wait' in p_.split('/')[-2:-1] or 'MultiQueue.waiter' in p_ for p_ in ps):
+            return 'consumer task list'
+        return 'a task list (FutWait.parked)'
+    for p_ in ps:
+        m = re.search(r'/(\w+\.\w+)$', p_)
+        if m:
+            return m.group(1)
+    return None
+
+
+def _p7k(ctx):
+    """lock order: the locks of the crate are always taken in one order.  The sink makes its last attempt under the
+    producer task list lock and a successful attempt notifies the consumers (consumer task list lock): so nothing may
+    take the producer list lock (or notify producers) while it holds the consumer list lock - two tasks would wait for
+    each other inside poll / start_send for ever"""
+    F = ctx.F
+    roots = [k for k in F.fns if re.search(r'^multiqueue::FutInner(Uni)?Recv::<.*>::\w+$', k) or
+             re.search(r'^<&?multiqueue::FutInner(Uni)?Recv<.*> as .*futures::Stream>::poll$', k) or
+             re.search(r'^<&?multiqueue::FutInnerSend<.*> as .*futures::Sink>::(start_send|poll_complete)$', k) or
+             re.search(r'^<multiqueue::(FutInner(Uni)?Recv|FutInnerSend|InnerSend|InnerRecv)<.*> as std::ops::Drop>::drop$', k) or
+             re.search(r'^multiqueue::FutInnerSend::<.*>::\w+$', k) or
+             re.search(r'^memory::MemoryManager::(free|get_token|remove_token)$', k) or
+             re.search(r'^<wait::\w+ as wait::Wait>::(wait|notify)$', k)]
+    roots = [r for r in roots if not F.fns[r].get('from_expansion') and not (r in F.fresh and ctx.revcg().get(r))]
+    edges = {}
+    for r in sorted(roots):
+        g = ctx.graph(r, 'BCast')
+        x = g.x
+        locks = x.ext_calls(LOCK_RE)
+        if not locks:
+            continue
+        acq = [(n, _lock_class(g, x, g.call_args(n)[0])) for n in locks]
+        # a notify through the queue's dyn waiter takes the consumer list lock (the futures constructors install FutWait)
+        for n in x.ext_calls(r'wait::Wait::notify$'):
+            acq.append((n, 'consumer task list'))
+        for L in locks:
+            c1 = _lock_class(g, x, g.call_args(L)[0])
+            if c1 is None:
+                continue
+            held = x.reach_from(L, blocked=guard_drops(g, x, L))
+            for (n, c2) in acq:
+                if c2 is None or x.rep(n) == x.rep(L) or n not in held:
+                    continue
+                if c1 == c2 and x.reaches(n, L) and x.reaches(L, n) and n in locks:
+                    continue   # the same acquisition in a loop
+                edges.setdefault((c1, c2), []).append((r, g.where(n)))
+    # cycles in the order graph (classes are few: plain DFS)
+    succ = {}
+    for (a, b) in edges:
+        succ.setdefault(a, set()).add(b)
+    bad = []
+    for (a, b) in sorted(edges):
+        if a == b:
+            bad.append((a, b))
+            continue
+        seen, st = set(), [b]
+        while st:
+            c = st.pop()
+            if c == a:
+                bad.append((a, b))
+                break
+            if c in seen:
+                continue
+            seen.add(c)
+            st.extend(succ.get(c, ()))
+    ctx.floor('P7k', len(edges), 1, 'nested lock acquisitions in the crate (the sink attempt under the producer list lock)')
+    for (a, b) in sorted(edges):
+        ok = (a, b) not in bad
+        r, where = edges[(a, b)][0]
+        ctx.add('P7k', 'T-ORD', r, ok, 'lock order: %s is taken while %s is held, never the other way round' % (b, a) if ok else
+                '%s takes the lock of the %s while holding the %s, and elsewhere the order is the opposite (%s): two threads can block each other for ever inside these calls'
+                % (short_fn(r), b, a, '; '.join('%s at %s' % (short_fn(r2), w2) for (a2, b2) in sorted(bad) if (a2, b2) != (a, b) for (r2, w2) in edges[(a2, b2)][:1])),
+                where=where, sub='%s->%s' % (a, b))
